@@ -13,7 +13,7 @@ from vlib.llsym import Module
 from checks import wcommon
 
 SELECT = ('no C assert', 'event trace is well formed', 'a valid call on a healthy writer returns 0', 'every vector position is written exactly once',
-          'sample at vector position j lands')
+          'sample at vector position j lands', 'representation invariant Inv_W')
 
 FUNCS = ['digital_rf_write_hdf5', 'digital_rf_write_blocks_hdf5', 'digital_rf_write_samples_to_file', 'digital_rf_create_rf_data_index',
          'digital_rf_get_global_sample', 'digital_rf_create_hdf5_file', 'digital_rf_write_rf_data_index', 'digital_rf_extend_dataset',
